@@ -26,9 +26,9 @@ from concurrent.futures.process import BrokenProcessPool
 import multiprocessing
 
 VERIF_DIR = os.path.dirname(os.path.dirname(os.path.abspath(__file__)))
-REPO_DIR = os.environ.get('PANE_REPO', '/repo')
-EVIDENCE_DIR = os.environ.get('VERIF_EVIDENCE_DIR') or os.path.join(VERIF_DIR, 'evidence')
-REPLAY_DIR = os.environ.get('VERIF_REPLAY_DIR') or os.path.join(VERIF_DIR, 'replays')
+REPO_DIR = os.path.abspath(os.environ.get('PANE_REPO') or '/repo')
+EVIDENCE_DIR = os.path.abspath(os.environ.get('VERIF_EVIDENCE_DIR') or os.path.join(VERIF_DIR, 'evidence'))
+REPLAY_DIR = os.path.abspath(os.environ.get('VERIF_REPLAY_DIR') or os.path.join(VERIF_DIR, 'replays'))
 KNOWN_FINDINGS = os.path.join(VERIF_DIR, 'known_findings.txt')
 
 EXIT_OK, EXIT_VIOLATION, EXIT_HARNESS = 0, 1, 2
@@ -101,6 +101,34 @@ class Trace:
 # ---------------------------------------------------------------------------------------------
 # the repository under test
 
+_HOME = None
+
+
+def _enter_private_home():
+    """The process imports and runs pane from an empty private scratch directory (removed at exit): whatever the code
+    under test may write relative to the current directory - now or as captured at import time - lands there and
+    never in /verif or /repo."""
+    global _HOME
+    if _HOME is not None:
+        return
+    import atexit
+    import shutil
+    import tempfile
+    base = os.environ.get('VERIF_SCRATCH') or ('/dev/shm' if os.path.isdir('/dev/shm') else tempfile.gettempdir())
+    _HOME = tempfile.mkdtemp(prefix='pane_home_', dir=base)
+    owner = os.getpid()
+    os.chdir(_HOME)
+
+    def _cleanup():
+        if os.getpid() == owner:
+            try:
+                os.chdir('/')
+            except OSError:
+                pass
+            shutil.rmtree(_HOME, ignore_errors=True)
+    atexit.register(_cleanup)
+
+
 def import_repo():
     """Import the real pane package from /repo's current working tree."""
     if REPO_DIR not in sys.path:
@@ -108,6 +136,7 @@ def import_repo():
     sys.dont_write_bytecode = True
     import warnings
     warnings.simplefilter('ignore')
+    _enter_private_home()
     import pane  # noqa
     pf = os.path.realpath(pane.__file__)
     if not pf.startswith(os.path.realpath(REPO_DIR) + os.sep):
